@@ -4,6 +4,7 @@ Import ListNotations.
 From BT.Base Require Import Bits.
 From BT.Layout Require Import Model.
 From BT.Tracer Require Import Model Lemmas Spec.
+From BT.Tracer Require FlagProofs.
 
 Lemma same_packet_refl c : same_packet c c.
 Proof. repeat split. Qed.
@@ -78,3 +79,416 @@ Proof.
   split; [|reflexivity]. unfold same_packet in *. up. exact S.
 Qed.
 
+
+(* ------------------------------------------------------------------ (b) atomicity w.r.t. the switch *)
+Definition csim (c c' : ctx) : Prop := set_enabled c true = set_enabled c' true.
+
+Lemma csim_fields c c' :
+  csim c c' ->
+  c_s c = c_s c' /\ c_psize c = c_psize c' /\ c_at c = c_at c' /\ c_content c = c_content c' /\
+  c_off_content c = c_off_content c' /\ c_disc c = c_disc c' /\ c_seq c = c_seq c' /\
+  c_open c = c_open c' /\ c_in_ts c = c_in_ts c' /\ c_use_ts c = c_use_ts c' /\
+  c_last_ts c = c_last_ts c' /\ c_saved c = c_saved c'.
+Proof. unfold csim, set_enabled. intros H. injection H. intros. repeat split; assumption. Qed.
+
+Lemma csim_intro c c' :
+  c_s c = c_s c' -> c_psize c = c_psize c' -> c_at c = c_at c' -> c_content c = c_content c' ->
+  c_off_content c = c_off_content c' -> c_disc c = c_disc c' -> c_seq c = c_seq c' ->
+  c_open c = c_open c' -> c_in_ts c = c_in_ts c' -> c_use_ts c = c_use_ts c' ->
+  c_last_ts c = c_last_ts c' -> c_saved c = c_saved c' -> csim c c'.
+Proof. unfold csim, set_enabled. intros. congruence. Qed.
+
+Lemma csim_tog a c : csim (tog a c) c.
+Proof. apply csim_intro; togs; reflexivity. Qed.
+Lemma csim_trans c1 c2 c3 : csim c1 c2 -> csim c2 c3 -> csim c1 c3.
+Proof. unfold csim. congruence. Qed.
+Lemma csim_sym c1 c2 : csim c1 c2 -> csim c2 c1.
+Proof. unfold csim. congruence. Qed.
+
+Lemma sim_intro w w' :
+  csim (w_c w) (w_c w') -> map erase_toggle (w_or w) = map erase_toggle (w_or w') ->
+  w_clk w = w_clk w' -> w_log w = w_log w' -> w_err w = w_err w' -> w_pcargs w = w_pcargs w' -> sim w w'.
+Proof. unfold sim, csim. auto 10. Qed.
+
+Lemma erase_hd l l' :
+  map erase_toggle l = map erase_toggle l' ->
+  a_full (hd default_ans l) = a_full (hd default_ans l') /\
+  a_newbuf (hd default_ans l) = a_newbuf (hd default_ans l') /\
+  a_inc (hd default_ans l) = a_inc (hd default_ans l') /\
+  map erase_toggle (tl l) = map erase_toggle (tl l').
+Proof.
+  destruct l as [|a l], l' as [|a' l']; cbn [map hd tl]; intros H; try discriminate; [repeat split|].
+  injection H as H1 H2 H3 H4. repeat split; assumption.
+Qed.
+
+Ltac simd H :=
+  let C := fresh "C" in let O := fresh "O" in let K := fresh "K" in let L := fresh "L" in
+  let E := fresh "E" in let P := fresh "P" in
+  match type of H with sim ?a ?b =>
+    assert (C : csim (w_c a) (w_c b)) by (exact (proj1 H)); destruct H as [_ [O [K [L [E P]]]]] end.
+
+Lemma clock_cb_sim d w w' :
+  sim w w' -> fst (clock_cb d w) = fst (clock_cb d w') /\ sim (snd (clock_cb d w)) (snd (clock_cb d w')).
+Proof.
+  intros H. simd H. destruct (erase_hd _ _ O) as [_ [_ [I T]]].
+  destruct (csim_fields _ _ C) as [_ [_ [_ [_ [_ [_ [_ [Ho [Hi _]]]]]]]]].
+  rewrite !clock_cb_eq. cbn [fst snd].
+  assert (N : clk_next d w = clk_next d w') by (unfold clk_next, hd_ans; rewrite K, I; reflexivity).
+  split; [exact N|]. apply sim_intro; up; try congruence.
+  eapply csim_trans; [apply csim_tog|]. eapply csim_trans; [exact C|]. apply csim_sym, csim_tog.
+Qed.
+
+Lemma full_cb_sim w w' :
+  sim w w' -> fst (full_cb w) = fst (full_cb w') /\ sim (snd (full_cb w)) (snd (full_cb w')).
+Proof.
+  intros H. simd H. destruct (erase_hd _ _ O) as [F [_ [_ T]]].
+  destruct (csim_fields _ _ C) as [_ [_ [_ [_ [_ [_ [_ [Ho [Hi _]]]]]]]]].
+  rewrite !full_cb_eq. cbn [fst snd]. unfold hd_ans. split; [exact F|].
+  apply sim_intro; up; try congruence.
+  eapply csim_trans; [apply csim_tog|]. eapply csim_trans; [exact C|]. apply csim_sym, csim_tog.
+Qed.
+
+Lemma do_ser_sim d w w' o v : sim w w' -> sim (do_ser d w o v) (do_ser d w' o v).
+Proof.
+  intros H. simd H.
+  destruct (csim_fields _ _ C) as [F1 [F2 [F3 [F4 [F5 [F6 [F7 [F8 [F9 [F10 [F11 F12]]]]]]]]]]].
+  rewrite !do_ser_eq. rewrite <- F1, <- F2, <- F3, <- F9.
+  destruct (ser _ _ _ _ _ _); apply sim_intro; up; try congruence.
+  apply csim_intro; unfold ser_ctx; up; congruence.
+Qed.
+
+Lemma setc_sim w w' c c' : sim w w' -> csim c c' -> sim (set_c w c) (set_c w' c').
+Proof. intros H Hc. simd H. apply sim_intro; up; assumption. Qed.
+Lemma logev_sim w w' e : sim w w' -> sim (logev w e) (logev w' e).
+Proof. intros H. simd H. apply sim_intro; up; congruence. Qed.
+Lemma fail_sim w w' n : sim w w' -> sim (fail w n) (fail w' n).
+Proof. intros H. simd H. apply sim_intro; up; congruence. Qed.
+Lemma sim_csim w w' : sim w w' -> csim (w_c w) (w_c w').
+Proof. intros H. apply H. Qed.
+
+Lemma write_saved_sim d w w' n v : sim w w' -> sim (write_saved d w n v) (write_saved d w' n v).
+Proof.
+  intros H. unfold write_saved. destruct (has_member _ _); [|exact H].
+  destruct (pc_member_op d n) as [[al k size off| | | |]|]; try (apply fail_sim, H).
+  destruct (skip_index _ _ _); try (apply fail_sim, H).
+  cbv zeta.
+  destruct (csim_fields _ _ (sim_csim _ _ H)) as [F1 [F2 [F3 [F4 [F5 [F6 [F7 [F8 [F9 [F10 [F11 F12]]]]]]]]]]].
+  match goal with |- sim (set_c (do_ser d ?w0 ?o ?v) _) (set_c (do_ser d ?w0' _ _) _) =>
+    assert (S0 : sim (do_ser d w0 o v) (do_ser d w0' o v)) end.
+  { apply do_ser_sim. apply setc_sim; [exact H|]. apply csim_intro; up; congruence. }
+  apply setc_sim; [exact S0|].
+  destruct (csim_fields _ _ (sim_csim _ _ S0)) as [G1 [G2 [G3 [G4 [G5 [G6 [G7 [G8 [G9 [G10 [G11 G12]]]]]]]]]]].
+  apply csim_intro; up; congruence.
+Qed.
+
+Lemma preamble_sim d w w' f :
+  sim w w' ->
+  fst (preamble_ts d w f) = fst (preamble_ts d w' f) /\ sim (snd (preamble_ts d w f)) (snd (preamble_ts d w' f)).
+Proof.
+  intros H.
+  destruct (csim_fields _ _ (sim_csim _ _ H)) as [F1 [F2 [F3 [F4 [F5 [F6 [F7 [F8 [F9 [F10 [F11 F12]]]]]]]]]]].
+  unfold preamble_ts. destruct (d_has_clock d && f); [|split; [reflexivity|exact H]].
+  rewrite <- F10. destruct (c_use_ts (w_c w)); [split; [exact F11|exact H]|].
+  apply clock_cb_sim, H.
+Qed.
+
+Lemma open_do_sim d ts w w' : sim w w' -> sim (open_do d ts w) (open_do d ts w').
+Proof.
+  intros H.
+  destruct (csim_fields _ _ (sim_csim _ _ H)) as [F1 [F2 [F3 [F4 [F5 [F6 [F7 [F8 [F9 [F10 [F11 F12]]]]]]]]]]].
+  unfold open_do. rewrite <- F2, <- F7, <- F9.
+  assert (S1 : sim (open_reset w) (open_reset w')).
+  { unfold open_reset. apply setc_sim; [exact H|]. apply csim_intro; up; congruence. }
+  assert (S2 : sim (open_hdr d (open_reset w)) (open_hdr d (open_reset w'))).
+  { unfold open_hdr. destruct (snd (ph_build d)); [apply do_ser_sim|]; exact S1. }
+  set (w2 := open_hdr d (open_reset w)) in *. set (w2' := open_hdr d (open_reset w')) in *.
+  assert (S3 : sim (open_mark d ts w2) (open_mark d ts w2')).
+  { unfold open_mark. destruct (_ && _); [apply logev_sim|]; exact S2. }
+  set (w3 := open_mark d ts w2) in *. set (w3' := open_mark d ts w2') in *.
+  match goal with |- sim (open_fin _ ?W) (open_fin _ ?W') => assert (S4 : sim W W') end.
+  { unfold open_pc. replace (w_pcargs w3') with (w_pcargs w3) by apply S3. apply do_ser_sim, S3. }
+  unfold open_fin. apply setc_sim; [exact S4|].
+  destruct (csim_fields _ _ (sim_csim _ _ S4)) as [G1 [G2 [G3 [G4 [G5 [G6 [G7 [G8 [G9 [G10 [G11 G12]]]]]]]]]]].
+  apply csim_intro; up; congruence.
+Qed.
+
+Lemma close_do_sim d ts w w' : sim w w' -> sim (close_do d ts w) (close_do d ts w').
+Proof.
+  intros H.
+  destruct (csim_fields _ _ (sim_csim _ _ H)) as [F1 [F2 [F3 [F4 [F5 [F6 [F7 [F8 [F9 [F10 [F11 F12]]]]]]]]]]].
+  unfold close_do. rewrite <- F9.
+  assert (S1 : sim (close_begin w) (close_begin w')).
+  { unfold close_begin. apply setc_sim; [exact H|]. apply csim_intro; up; congruence. }
+  assert (S2 : sim (close_mark d ts (close_begin w)) (close_mark d ts (close_begin w'))).
+  { unfold close_mark. destruct (_ && _); [apply logev_sim|]; exact S1. }
+  set (w2 := close_mark d ts (close_begin w)) in *. set (w2' := close_mark d ts (close_begin w')) in *.
+  assert (S3 : sim (close_ws d ts w2) (close_ws d ts w2')).
+  { unfold close_ws. cbv zeta.
+    assert (A1 : sim (write_saved d w2 "timestamp_end" ts) (write_saved d w2' "timestamp_end" ts))
+      by apply write_saved_sim, S2.
+    set (x1 := write_saved d w2 "timestamp_end" ts) in *. set (x1' := write_saved d w2' "timestamp_end" ts) in *.
+    replace (c_content (w_c x1')) with (c_content (w_c x1))
+      by apply (csim_fields _ _ (sim_csim _ _ A1)).
+    assert (A2 : sim (write_saved d x1 "content_size" (Z.of_nat (c_content (w_c x1))))
+                     (write_saved d x1' "content_size" (Z.of_nat (c_content (w_c x1)))))
+      by apply write_saved_sim, A1.
+    set (x2 := write_saved d x1 "content_size" _) in *. set (x2' := write_saved d x1' "content_size" _) in *.
+    replace (c_disc (w_c x2')) with (c_disc (w_c x2)) by apply (csim_fields _ _ (sim_csim _ _ A2)).
+    apply write_saved_sim, A2. }
+  unfold close_fin. apply setc_sim; [exact S3|].
+  destruct (csim_fields _ _ (sim_csim _ _ S3)) as [G1 [G2 [G3 [G4 [G5 [G6 [G7 [G8 [G9 [G10 [G11 G12]]]]]]]]]]].
+  destruct (has_member (d_pc d) "packet_seq_num"); apply csim_intro; up; congruence.
+Qed.
+
+(* inside a tracing section the opening / closing functions do not look at the switch *)
+Lemma open_core_sim d ts w w' :
+  c_in_ts (w_c w) = true -> sim w w' -> sim (open_core d ts w) (open_core d ts w').
+Proof.
+  intros Hi H.
+  destruct (csim_fields _ _ (sim_csim _ _ H)) as [F1 [F2 [F3 [F4 [F5 [F6 [F7 [F8 [F9 [F10 [F11 F12]]]]]]]]]]].
+  unfold open_core. rewrite <- F9, <- F8, Hi, !andb_false_r.
+  destruct (c_open (w_c w)) eqn:Eo; [|apply open_do_sim, H].
+  apply setc_sim; [exact H|]. apply csim_intro; up; congruence.
+Qed.
+
+Lemma close_core_sim d ts w w' :
+  c_in_ts (w_c w) = true -> sim w w' -> sim (close_core d ts w) (close_core d ts w').
+Proof.
+  intros Hi H.
+  destruct (csim_fields _ _ (sim_csim _ _ H)) as [F1 [F2 [F3 [F4 [F5 [F6 [F7 [F8 [F9 [F10 [F11 F12]]]]]]]]]]].
+  unfold close_core. rewrite <- F9, <- F8, Hi, !andb_false_r.
+  destruct (c_open (w_c w)) eqn:Eo; cbn [negb]; [apply close_do_sim, H|].
+  apply setc_sim; [exact H|]. apply csim_intro; up; congruence.
+Qed.
+
+Lemma preamble_in_ts d w f : c_in_ts (w_c (snd (preamble_ts d w f))) = c_in_ts (w_c w).
+Proof.
+  destruct (preamble_cases d w f) as [[E _]|[[E _]|[E _]]]; rewrite E; try reflexivity.
+  rewrite clock_cb_eq. up. togs. reflexivity.
+Qed.
+
+Lemma open_fn_sim d w w' : c_in_ts (w_c w) = true -> sim w w' -> sim (open_fn d w) (open_fn d w').
+Proof.
+  intros Hi H. rewrite !open_fn_eq.
+  destruct (preamble_sim d w w' (has_member (d_pc d) "timestamp_begin") H) as [E S]. rewrite <- E.
+  apply open_core_sim; [rewrite preamble_in_ts; exact Hi|exact S].
+Qed.
+
+Lemma close_fn_sim d w w' : c_in_ts (w_c w) = true -> sim w w' -> sim (close_fn d w) (close_fn d w').
+Proof.
+  intros Hi H. rewrite !close_fn_eq.
+  destruct (preamble_sim d w w' (has_member (d_pc d) "timestamp_end") H) as [E S]. rewrite <- E.
+  apply close_core_sim; [rewrite preamble_in_ts; exact Hi|exact S].
+Qed.
+
+Lemma cb_enter_sim k w w' : sim w w' -> sim (cb_enter k w) (cb_enter k w').
+Proof.
+  intros H. simd H. destruct (erase_hd _ _ O) as [_ [_ [_ T]]].
+  destruct (csim_fields _ _ C) as [_ [_ [_ [_ [_ [_ [_ [Ho [Hi _]]]]]]]]].
+  unfold cb_enter. apply sim_intro; up; try congruence.
+  eapply csim_trans; [apply csim_tog|]. eapply csim_trans; [exact C|]. apply csim_sym, csim_tog.
+Qed.
+
+Lemma open_cb_sim d w w' : c_in_ts (w_c w) = true -> sim w w' -> sim (open_cb d w) (open_cb d w').
+Proof.
+  intros Hi H. rewrite !open_cb_eq. apply open_fn_sim; [|apply cb_enter_sim, H].
+  unfold cb_enter; up; togs; exact Hi.
+Qed.
+
+Lemma packet_set_buf_csim c c' n : csim c c' -> csim (packet_set_buf c n) (packet_set_buf c' n).
+Proof.
+  intros H. destruct (csim_fields _ _ H) as [F1 [F2 [F3 [F4 [F5 [F6 [F7 [F8 [F9 [F10 [F11 F12]]]]]]]]]]].
+  unfold packet_set_buf. rewrite <- F2, <- F3. apply csim_intro; up; congruence.
+Qed.
+
+Lemma close_cb_sim d w w' : c_in_ts (w_c w) = true -> sim w w' -> sim (close_cb d w) (close_cb d w').
+Proof.
+  intros Hi H. rewrite !close_cb_eq.
+  assert (S1 : sim (close_fn d (cb_enter 2 w)) (close_fn d (cb_enter 2 w'))).
+  { apply close_fn_sim; [|apply cb_enter_sim, H]. unfold cb_enter; up; togs; exact Hi. }
+  set (x := close_fn d (cb_enter 2 w)) in *. set (x' := close_fn d (cb_enter 2 w')) in *.
+  destruct (csim_fields _ _ (sim_csim _ _ H)) as [_ [_ [_ [_ [_ [_ [_ [Ho _]]]]]]]].
+  destruct (csim_fields _ _ (sim_csim _ _ S1)) as [G1 [G2 [G3 [G4 [G5 [G6 [G7 [G8 [G9 [G10 [G11 G12]]]]]]]]]]].
+  destruct (erase_hd _ _ (proj1 (proj2 H))) as [_ [B _]].
+  unfold close_hand. cbv zeta. rewrite <- Ho, <- G8. destruct (_ && _); [|exact S1].
+  rewrite <- G1, <- G2. unfold hd_ans. rewrite <- B.
+  match goal with |- context [logev x ?e] => pose proof (logev_sim x x' e S1) as S2 end.
+  destruct (a_newbuf _); [|exact S2].
+  apply setc_sim; [exact S2|]. apply packet_set_buf_csim, (sim_csim _ _ S2).
+Qed.
+
+Lemma with_use_ts_sim f w w' :
+  (forall w w', c_in_ts (w_c w) = true -> sim w w' -> sim (f w) (f w')) ->
+  c_in_ts (w_c w) = true -> sim w w' -> sim (with_use_ts f w) (with_use_ts f w').
+Proof.
+  intros Hf Hi H. unfold with_use_ts.
+  destruct (csim_fields _ _ (sim_csim _ _ H)) as [F1 [F2 [F3 [F4 [F5 [F6 [F7 [F8 [F9 [F10 [F11 F12]]]]]]]]]]].
+  match goal with |- sim (set_c (f ?a) _) (set_c (f ?b) _) => assert (S1 : sim (f a) (f b)) end.
+  { apply Hf; [exact Hi|]. apply setc_sim; [exact H|]. apply csim_intro; up; congruence. }
+  apply setc_sim; [exact S1|].
+  destruct (csim_fields _ _ (sim_csim _ _ S1)) as [G1 [G2 [G3 [G4 [G5 [G6 [G7 [G8 [G9 [G10 [G11 G12]]]]]]]]]]].
+  apply csim_intro; up; congruence.
+Qed.
+
+Lemma no_space_sim w w' : sim w w' -> sim (snd (no_space w)) (snd (no_space w')).
+Proof.
+  intros H. rewrite !no_space_eq. cbn [snd].
+  destruct (csim_fields _ _ (sim_csim _ _ H)) as [F1 [F2 [F3 [F4 [F5 [F6 [F7 [F8 [F9 [F10 [F11 F12]]]]]]]]]]].
+  simd H. apply sim_intro; up; try congruence. apply csim_intro; up; congruence.
+Qed.
+
+(* relation R := sim /\ flag = 1 through _reserve_er_space *)
+Definition simin (w w' : world) : Prop := sim w w' /\ c_in_ts (w_c w) = true.
+
+Lemma simin_flag w w' : simin w w' -> c_in_ts (w_c w') = true.
+Proof. intros [H Hi]. destruct (csim_fields _ _ (sim_csim _ _ H)) as [_ [_ [_ [_ [_ [_ [_ [_ [F9 _]]]]]]]]]. congruence. Qed.
+
+Lemma wopen_simin d w w' : simin w w' -> simin (with_use_ts (open_cb d) w) (with_use_ts (open_cb d) w').
+Proof.
+  intros [H Hi]. split; [apply with_use_ts_sim; [apply open_cb_sim|exact Hi|exact H]|].
+  apply (FlagProofs.with_use_ts_blk (FlagProofs.evok true) true (open_cb d) w); [|exact Hi].
+  intros; apply FlagProofs.open_cb_blk; assumption.
+Qed.
+Lemma wclose_simin d w w' : simin w w' -> simin (with_use_ts (close_cb d) w) (with_use_ts (close_cb d) w').
+Proof.
+  intros [H Hi]. split; [apply with_use_ts_sim; [apply close_cb_sim|exact Hi|exact H]|].
+  apply (FlagProofs.with_use_ts_blk (FlagProofs.evok true) true (close_cb d) w); [|exact Hi].
+  intros; apply FlagProofs.close_cb_blk; assumption.
+Qed.
+Lemma full_simin w w' : simin w w' -> fst (full_cb w) = fst (full_cb w') /\ simin (snd (full_cb w)) (snd (full_cb w')).
+Proof.
+  intros [H Hi]. destruct (full_cb_sim w w' H) as [E S]. split; [exact E|]. split; [exact S|].
+  rewrite full_cb_eq. up. togs. exact Hi.
+Qed.
+
+Lemma reserve2_sim d n w w' :
+  simin w w' ->
+  fst (reserve2 d n w) = fst (reserve2 d n w') /\ simin (snd (reserve2 d n w)) (snd (reserve2 d n w')).
+Proof.
+  intros H.
+  destruct (csim_fields _ _ (sim_csim _ _ (proj1 H))) as [_ [F2 [F3 _]]].
+  unfold reserve2. rewrite <- F2, <- F3.
+  destruct (gt_diff32 n (c_psize (w_c w)) (c_at (w_c w))); [|split; [reflexivity|exact H]].
+  cbv zeta. pose proof (wclose_simin d w w' H) as S1.
+  destruct (full_simin _ _ S1) as [E2 S2]. rewrite <- E2.
+  destruct (fst (full_cb (with_use_ts (close_cb d) w))).
+  - split; [reflexivity|]. split; [apply no_space_sim, S2|apply S2].
+  - pose proof (wopen_simin d _ _ S2) as S3.
+    destruct (csim_fields _ _ (sim_csim _ _ (proj1 S3))) as [_ [G2 [G3 _]]].
+    rewrite <- G2, <- G3.
+    match goal with |- context [if ?c then _ else _] => destruct c end; cbn [fst snd].
+    + split; [reflexivity|]. split; [apply fail_sim, S3|apply S3].
+    + split; [reflexivity|exact S3].
+Qed.
+
+Lemma reserve_sim d w w' n :
+  simin w w' ->
+  fst (reserve d w n) = fst (reserve d w' n) /\ simin (snd (reserve d w n)) (snd (reserve d w' n)).
+Proof.
+  intros H. rewrite !reserve_eq.
+  destruct (csim_fields _ _ (sim_csim _ _ (proj1 H))) as [_ [F2 [F3 [_ [F5 _]]]]].
+  unfold reserve'. rewrite <- F2, <- F3, <- F5.
+  destruct (gt_diff32 _ _ _).
+  { split; [reflexivity|]. split; [apply no_space_sim, H|apply H]. }
+  destruct (_ =? _); [|apply reserve2_sim, H].
+  destruct (full_simin _ _ H) as [E2 S2]. rewrite <- E2.
+  destruct (fst (full_cb w)).
+  - split; [reflexivity|]. split; [apply no_space_sim, S2|apply S2].
+  - apply reserve2_sim, wopen_simin, S2.
+Qed.
+
+Lemma ser_parts_sim d ps w w' : sim w w' -> sim (ser_parts d w ps) (ser_parts d w' ps).
+Proof.
+  unfold ser_parts. revert w w'. induction ps as [|[o v] ps IH]; intros w w' H; cbn [fold_left]; [exact H|].
+  replace (w_err w') with (w_err w) by apply H.
+  destruct (w_err w); apply IH; [exact H|apply do_ser_sim, H].
+Qed.
+
+(* C07 (b): the part of a tracing call after the enabled test does not depend on the switch nor on
+   the toggles performed by the callbacks it invokes *)
+Theorem trace_body_sim d e args w w' :
+  sim w w' -> sim (trace_body d e args w) (trace_body d e args w').
+Proof.
+  intros H.
+  destruct (csim_fields _ _ (sim_csim _ _ H)) as [F1 [F2 [F3 [F4 [F5 [F6 [F7 [F8 [F9 [F10 [F11 F12]]]]]]]]]]].
+  unfold trace_body. cbv zeta. rewrite <- F3.
+  assert (S0 : simin (set_c w (set_in_ts (w_c w) true)) (set_c w' (set_in_ts (w_c w') true))).
+  { split; [|reflexivity]. apply setc_sim; [exact H|]. apply csim_intro; up; congruence. }
+  destruct (size_parts _ _) as [at_end|]; [|apply fail_sim, S0].
+  destruct (reserve_sim d _ _ (at_end - c_at (w_c w)) S0) as [E1 [S1 I1]].
+  set (r := reserve d (set_c w (set_in_ts (w_c w) true)) (at_end - c_at (w_c w))) in *.
+  set (r' := reserve d (set_c w' (set_in_ts (w_c w') true)) (at_end - c_at (w_c w))) in *.
+  rewrite <- E1.
+  destruct (csim_fields _ _ (sim_csim _ _ S1)) as [G1 [G2 [G3 [G4 [G5 [G6 [G7 [G8 [G9 [G10 [G11 G12]]]]]]]]]]].
+  destruct (negb (fst r)).
+  { apply setc_sim; [exact S1|]. apply csim_intro; up; congruence. }
+  replace (w_err (snd r')) with (w_err (snd r)) by apply S1.
+  destruct (w_err (snd r)); [exact S1|].
+  unfold trace_ser. cbv zeta.
+  assert (S2 : sim (trace_mark d (snd r)) (trace_mark d (snd r'))).
+  { unfold trace_mark. rewrite <- G11. destruct (_ && _); [apply logev_sim|]; exact S1. }
+  assert (L2 : c_last_ts (w_c (trace_mark d (snd r'))) = c_last_ts (w_c (trace_mark d (snd r))))
+    by (symmetry; apply (csim_fields _ _ (sim_csim _ _ S2))).
+  rewrite L2.
+  match goal with |- context [ser_parts d (trace_mark d (snd r)) ?ps] =>
+    pose proof (ser_parts_sim d ps _ _ S2) as S3;
+    destruct (FlagProofs.ser_parts_blk d ps (trace_mark d (snd r))) as [I3 _];
+    [unfold trace_mark; destruct (_ && _); exact I1|];
+    set (x := ser_parts d (trace_mark d (snd r)) ps) in *;
+    set (x' := ser_parts d (trace_mark d (snd r')) ps) in * end.
+  replace (w_err x') with (w_err x) by apply S3.
+  destruct (w_err x); [exact S3|].
+  unfold trace_commit. cbv zeta.
+  destruct (csim_fields _ _ (sim_csim _ _ S3)) as [J1 [J2 [J3 _]]].
+  rewrite <- J2, <- J3.
+  assert (S4 : sim (if c_at (w_c x) =? c_psize (w_c x) then close_cb d x else x)
+                   (if c_at (w_c x) =? c_psize (w_c x) then close_cb d x' else x')).
+  { destruct (_ =? _); [apply close_cb_sim; [exact I3|exact S3]|exact S3]. }
+  apply setc_sim; [exact S4|].
+  destruct (csim_fields _ _ (sim_csim _ _ S4)) as [Q1 [Q2 [Q3 [Q4 [Q5 [Q6 [Q7 [Q8 [Q9 [Q10 [Q11 Q12]]]]]]]]]]].
+  apply csim_intro; up; congruence.
+Qed.
+
+Lemma entry_world_sim d w w' : sim w w' -> sim (entry_world d w) (entry_world d w').
+Proof.
+  intros H. rewrite !entry_world_eq. unfold trace_entry. destruct (d_has_clock d); [|exact H].
+  destruct (clock_cb_sim d w w' H) as [E S]. rewrite <- E. apply setc_sim; [exact S|].
+  destruct (csim_fields _ _ (sim_csim _ _ S)) as [Q1 [Q2 [Q3 [Q4 [Q5 [Q6 [Q7 [Q8 [Q9 [Q10 [Q11 Q12]]]]]]]]]]].
+  apply csim_intro; up; congruence.
+Qed.
+
+Theorem trace_fn_atomic d e args w w' :
+  sim w w' ->
+  c_enabled (w_c (entry_world d w)) = true -> c_enabled (w_c (entry_world d w')) = true ->
+  sim (trace_fn d e args w) (trace_fn d e args w').
+Proof.
+  intros H E1 E2. rewrite !trace_fn_eq, <- !entry_world_eq, E1, E2. cbn [negb].
+  apply trace_body_sim, entry_world_sim, H.
+Qed.
+
+(* in particular: same outcome as with an oracle that never toggles *)
+Definition no_toggles (w : world) : world :=
+  mk_w (w_c w) (map erase_toggle (w_or w)) (w_clk w) (w_log w) (w_err w) (w_pcargs w).
+Lemma sim_no_toggles w : sim w (no_toggles w).
+Proof.
+  apply sim_intro; try reflexivity. unfold no_toggles. up. rewrite map_map.
+  apply map_ext. intros a. reflexivity.
+Qed.
+
+(* every block used inside a tracing call after the enabled test *)
+Theorem blocks_atomic d w w' :
+  sim w w' -> c_in_ts (w_c w) = true ->
+  (forall n, fst (reserve d w n) = fst (reserve d w' n) /\ sim (snd (reserve d w n)) (snd (reserve d w' n))) /\
+  sim (open_cb d w) (open_cb d w') /\ sim (close_cb d w) (close_cb d w') /\
+  (fst (full_cb w) = fst (full_cb w') /\ sim (snd (full_cb w)) (snd (full_cb w'))) /\
+  (fst (clock_cb d w) = fst (clock_cb d w') /\ sim (snd (clock_cb d w)) (snd (clock_cb d w'))) /\
+  (forall ps, sim (ser_parts d w ps) (ser_parts d w' ps)).
+Proof.
+  intros H Hi. split; [|split; [|split; [|split; [|split]]]].
+  - intros n. destruct (reserve_sim d w w' n (conj H Hi)) as [E [S _]]. auto.
+  - apply open_cb_sim; assumption.
+  - apply close_cb_sim; assumption.
+  - apply full_cb_sim, H.
+  - apply clock_cb_sim, H.
+  - intros ps. apply ser_parts_sim, H.
+Qed.
